@@ -59,6 +59,8 @@ Definition init : state := {| pooled := []; held := []; freed := []; next_id := 
 Inductive op :=
 | OAlloc (esize align cap fresh_cap : N)   (* alloc::<T>(cap); fresh_cap = capacity the global
                                               allocator returns if the pool is bypassed/misses *)
+| OFresh (esize align cap : N)             (* holder obtains a Vec straight from the global allocator
+                                              (not through the pool), e.g. a Vec<()> it built itself *)
 | OAdd (id : N)                            (* holder returns buffer [id] to the pool *)
 | ODrop (id : N).                          (* holder frees buffer [id] itself *)
 
@@ -95,6 +97,7 @@ Definition step (min_size : N) (s : state) (o : op) : state * out :=
                end
            | None => fresh s esize align fresh_cap
            end
+  | OFresh esize align cap => fresh s esize align cap
   | OAdd id =>
       match take_id id (held s) with
       | Some (b, h') =>
@@ -160,6 +163,12 @@ Definition spec_step (s : state) (o : op) (ob : obs) : option state :=
   let len := N.of_nat (length (pooled s)) in
   match o, ob with
   | OAlloc esize align cap _, ObsAlloc None cap' len' =>
+      if (cap <=? cap') && (len' =? len)
+      then Some {| pooled := pooled s;
+                   held := {| b_id := next_id s; b_cap := cap'; b_esize := esize; b_align := align |} :: held s;
+                   freed := freed s; next_id := next_id s + 1 |}
+      else None
+  | OFresh esize align cap, ObsAlloc None cap' len' =>
       if (cap <=? cap') && (len' =? len)
       then Some {| pooled := pooled s;
                    held := {| b_id := next_id s; b_cap := cap'; b_esize := esize; b_align := align |} :: held s;
